@@ -4,6 +4,7 @@ package c04
 
 import (
 	"fmt"
+	"io"
 	"os"
 	"regexp"
 	"runtime"
@@ -56,7 +57,7 @@ func crossProduct() []Gen {
 				loads = append(loads, "inburst")
 			}
 			if at != "in-only" {
-				loads = append(loads, "outflood", "outflood-stalled")
+				loads = append(loads, "outflood", "outflood-stalled", "outflood-stalled-eof")
 			}
 			for _, ld := range loads {
 				for _, first := range []string{"in", "out"} {
@@ -66,6 +67,11 @@ func crossProduct() []Gen {
 					hows := inHows
 					if first == "out" {
 						hows = outHows
+						if ld == "outflood-stalled-eof" {
+							// the stream has already ended by itself (unseen, behind the
+							// flood); what ends the shell is a cancellation
+							hows = []string{"cancel"}
+						}
 					}
 					for hi, how := range hows {
 						g := Gen{Bidir: bidir, Attach: at, Load: ld, First: first, How: how, WK: bk.WriterKind((hi + len(out)) % 4), OutFirst: len(out)%2 == 1}
@@ -207,6 +213,35 @@ func (s *series) runGen(n int, g Gen) {
 	case "inburst":
 		for i := 0; i < 20; i++ {
 			w.Ich <- fmt.Sprintf("burst-%d-%d", n, i)
+		}
+	case "outflood-stalled-eof":
+		// The terminal is stalled and the shell sends exactly as many chunks as fit between
+		// the transport and the terminal (one in the terminal's hands, the operator channel's
+		// capacity, one in the forwarder's hands, two in the broker's own queue), then its
+		// stream ends: the broker's reader has read the end of the stream but cannot hand it
+		// on.  Whatever ends the shell now (a cancellation), the reader must not stay behind.
+		resume = w.StallOperator()
+		base := out.A.Rd.ReadCalls()
+		fill := s.och + 4
+		for i := 0; i < fill; i++ {
+			out.A.Rd.PushData(fmt.Sprintf("flood-%d-%d;", n, i))
+		}
+		out.A.Rd.Push(bk.ReadItem{Err: io.EOF})
+		parked := false
+		for i := 0; i < 2000 && !parked; i++ {
+			if out.A.Rd.ReadCalls()-base >= fill+1 {
+				parked = true
+				break
+			}
+			time.Sleep(time.Millisecond)
+		}
+		s.r.Count("generations_with_stream_end_behind_full_queue", 1)
+		if parked {
+			if _, ended := w.Log.Find(0, func(e bk.Event) bool {
+				return e.Kind == "hook" && e.Att == out.A.ID && e.S == "release" && e.Dir == "output"
+			}); !ended {
+				s.r.Count("readers_holding_the_stream_end_behind_a_full_queue", 1)
+			}
 		}
 	case "outflood", "outflood-stalled":
 		if g.Load == "outflood-stalled" {
@@ -539,7 +574,7 @@ func seriesList(r *mon.Run, engine string) [][]Gen {
 }
 
 func Run(r *mon.Run) {
-	r.Rule = "one broker per series; a series is a sequence of shell generations with fresh IDs; each generation is a point of the cross product {uni,bidir} x {full,in-only,out-only} x {idle,input burst,output flood,output flood with the operator's terminal stalled} x {which direction ends first} x {ctx cancel, writer error, flush error, reader EOF, reader error, data+error} x {alone, both ending together with either release order}; the gate scheduler drives each release section, a marker line through the operator channel closes each generation's window, then notices/events/log records are counted, the next shell must attach and pass an I/O probe, and (in serial child processes) a goroutine dump is scanned for anything still inside internal/iobroker. distinct = distinct generation parameter tuples executed"
+	r.Rule = "one broker per series; a series is a sequence of shell generations with fresh IDs; each generation is a point of the cross product {uni,bidir} x {full,in-only,out-only} x {idle,input burst,output flood,output flood with the operator's terminal stalled,the same with the stream ending by itself behind a queue that is exactly full} x {which direction ends first} x {ctx cancel, writer error, flush error, reader EOF, reader error, data+error} x {alone, both ending together with either release order}; the gate scheduler drives each release section, a marker line through the operator channel closes each generation's window, then notices/events/log records are counted, the next shell must attach and pass an I/O probe, and (in serial child processes) a goroutine dump is scanned for anything still inside internal/iobroker. every second series has a third event listener with room for 1-3 events that looks at them only every 1-3 ms and must receive the same events in the same order. distinct = distinct generation parameter tuples executed"
 	r.Assumptions = []string{"goroutine-leak scans run in child processes that execute one series at a time", "listener events are awaited (bounded) before shutdown; nothing is asserted about events around shutdown"}
 	cp := crossProduct()
 	r.Count("cross_product_points", int64(len(cp)))
@@ -567,6 +602,10 @@ func Run(r *mon.Run) {
 	r.Floor("generations_judged", 200)
 	r.Floor("leak_scans", 200)
 	r.Floor("shutdown_cases", 20)
+	if r.WantEngine("cross") && !r.Replaying() {
+		r.Floor("series_with_slow_listener", 5)
+		r.Floor("readers_holding_the_stream_end_behind_a_full_queue", 10)
+	}
 }
 
 func tailS(b []byte) string {
